@@ -649,6 +649,15 @@ def directed_cases():
                 else:
                     out.append({"sig": ["int", "int"], "_form": "directed",
                                 "surface": {"form": "simple" if len(alts) == 1 else "disj", "pats": [("tuple", a) for a in alts], "guard": g}})
+    # eq!/ne! on a user type whose PartialEq::ne is overridden and is NOT the negation of eq (struct S: `!=` looks at the first field
+    # only): ne!(o) must evaluate `value != o`, eq!(o) `value == o` - a Rust match with those comparisons does
+    for ne in (False, True):
+        for operand in (vctor("S", [vint(3), vbool(False)]), vctor("S", [vint(3), vbool(True)]), vctor("S", [vint(7), vbool(False)])):
+            cm = ("cmp", ne, operand)
+            out.append({"sig": ["struct"], "_form": "directed", "surface": {"form": "simple", "pats": [cm], "guard": None}})
+            out.append({"sig": ["struct", "int"], "_form": "directed", "surface": {"form": "simple", "pats": [cm, ("bind", "i0")], "guard": None}})
+            out.append({"sig": ["int", "struct"], "_form": "directed",
+                        "surface": {"form": "disj", "pats": [("tuple", [("int", 3), cm]), ("tuple", [("wild",), ("cmp", not ne, operand)])], "guard": None}})
     cg = [None, ("const", True), ("or", ("const", False), ("const", True)), ("and", ("const", True), ("const", True))]
     for g in cg:
         for a, bb in ((False, False), (False, True), (True, False), (True, True)):
